@@ -35,7 +35,7 @@ def obligations(tier):
         obs.append(Ob("C09.uri-gate-default/%02d" % si, "crosshair", "harness.C09:uri_gate_default", T, param={"scheme": si, "hole": 1 if q else 2},
                       bounds="href = %r with a hole of <= %d characters over the URL class alphabet at every position, with/without a tail; default allow-lists" % (C09.SCHEMES[si], 1 if q else 2), encodes=[SAN + "allowed_token", "html5lib/filters/sanitizer.py:data_content_type"]))
     for si in range(len(C09.SCHEMES)):
-        obs.append(Ob("C09.uri-gate-custom/%02d" % si, "crosshair", "harness.C09:uri_gate_custom", T, param={"scheme": si, "nattrs": 4 if q else 19},
+        obs.append(Ob("C09.uri-gate-custom/%02d" % si, "crosshair", "harness.C09:uri_gate_custom", T, param={"scheme": si, "nattrs": 2 if q else 19},
                       bounds="custom allowed_protocols = {http}: %r with a hole of <= 1 class character at every position, with/without a tail, on every URI-valued attribute" % (C09.SCHEMES[si],), encodes=[SAN + "allowed_token"]))
     for first in range(len(C09.CSS_ALPHA)):
         obs.append(Ob("C09.css-gate/first-%02d" % first, "crosshair", "harness.C09:css_gate", T, param={"first": first, "clen": 3 if q else 4},
